@@ -445,6 +445,12 @@ class Export(object):
                         # mapped basins: correct nested mapping
                         bn_dict["basin_map"] = basinmap_orig[filter_arr]
 
+                    if (bn_dict.get("basin_map") is not None
+                            and len(bn_dict["basin_map"]) == 0):
+                        # No events are exported (empty filter), so there
+                        # is nothing a mapped basin could refer to (and
+                        # an empty mapping feature cannot be stored).
+                        continue
                     # Do not verify basins, it takes too long.
                     hw.store_basin(**bn_dict, verify=False)
 
